@@ -11,6 +11,10 @@ import SaoVerif.Properties.C06
   shard, unit price × size × renewed duration, and no provider income is touched
   (the `fix:` of F13; before it this case refunded nothing).
 * `C04_withdraw_past_period`: a shard that already moved on to a later order contributes nothing.
+* `C04_withdraw_waiting_shard`: a replica that was never stored is refunded for the whole term;
+  `C04_withdraw_unstored_other`: a shard that is migrating in or has timed out is neither stored nor waiting: it
+  adds nothing to the refund and touches no provider income (the replica it stands for is accounted by the
+  completed or waiting shard it replaces or that replaced it). seeded/C04-2 merges these branches.
 Whole-lifecycle conservation (charged = income + refunds up to dust) is monitored at quiescence
 (`Spec.escrowsSettled`) on every implementation state.
 -/
@@ -35,5 +39,25 @@ theorem C04_withdraw_running_shard (o : Order) (s : State) (r : Dec) (id : Nat) 
     (withdrawLoop o [id] s r).2.2 = none := by
   have h1 : ¬ (sh.orderId > o.id) := by omega
   simp [withdrawLoop, hs, h1, hst, heq, workerRelease, hw]
+
+theorem C04_withdraw_waiting_shard (o : Order) (s : State) (r : Dec) (id : Nat) (sh : Shard)
+    (hs : s.getShard id = some sh) (hst : sh.status = ShardWaiting) (hle : ¬ sh.orderId > o.id) :
+    withdrawLoop o [id] s r = (s, r + Dec.mulInt (Dec.mulInt o.unitPrice (toI64 sh.size)) (toI64 o.duration), none) := by
+  have h2 : sh.status ≠ ShardCompleted := by rw [hst]; decide
+  simp [withdrawLoop, hs, hle, hst, h2, ShardWaiting, ShardCompleted]
+
+theorem C04_withdraw_unstored_other (o : Order) (s : State) (r : Dec) (id : Nat) (sh : Shard)
+    (hs : s.getShard id = some sh) (h1 : sh.status ≠ ShardCompleted) (h2 : sh.status ≠ ShardWaiting) :
+    withdrawLoop o [id] s r = (s, r, none) := by
+  unfold withdrawLoop
+  simp only [hs]
+  split
+  · simp [withdrawLoop]
+  · simp [h1, h2, withdrawLoop]
+
+/-- in particular a migrating or timed-out shard -/
+example (o : Order) (s : State) (r : Dec) (id : Nat) (sh : Shard) (hs : s.getShard id = some sh)
+    (h : sh.status = ShardMigrating ∨ sh.status = ShardTimeout) : withdrawLoop o [id] s r = (s, r, none) := by
+  apply C04_withdraw_unstored_other o s r id sh hs <;> rcases h with h | h <;> rw [h] <;> decide
 
 end SaoVerif
